@@ -67,3 +67,54 @@ def _dt_mean_overflow(prop, failure):
         return False
     sums = _group_native_sums(case, vs)
     return any(not (-(2**63) <= s < 2**63) for s in sums.values())
+
+
+@predicate("apply_no_observed_group")
+def _apply_empty(prop, failure):
+    """median / quantile / apply when no group has a selected row (every key null, or the mask selects
+    no row with a non-null key): GroupBy.apply indexes its empty result list (IndexError)."""
+    from . import gen
+
+    case = failure.get("case") or {}
+    if "raised" not in failure.get("monitor", ""):
+        return False
+    op = failure.get("op") or case.get("op")
+    if op not in ("median", "quantile", "apply"):
+        return False
+    if "IndexError" not in (failure.get("detail") or ""):
+        return False
+    keys = failure.get("keys") or case.get("keys")
+    n = len(keys[0]["vals"])
+    lk = gen.logical_keys(keys)
+    sel = gen.mask_selection(failure.get("mask", case.get("mask")), n)
+    return not any(lk[i] is not None for i in sel)
+
+
+@predicate("alpha_ema_mask_decay")
+def _k02(prop, failure):
+    """alpha/halflife EMA without times: a masked row still applies one decay step to its group, so
+    mask != filter whenever an unselected row lies inside a group's active span."""
+    from . import gen
+
+    case = failure.get("case") or {}
+    if failure.get("monitor") != "c05.filter" or case.get("op") != "ema" or case.get("times") is not None:
+        return False
+    m = case.get("mask")
+    if m is None:
+        return False
+    lk = gen.logical_keys(case["keys"])
+    selb = gen.mask_as_bool(m, case["n"])
+    vals = case["val"]["vals"]
+    seen_valid = set()
+    pending = set()
+    for i, k in enumerate(lk):
+        if k is None:
+            continue
+        if selb[i]:
+            if k in pending:
+                return True
+            if vals[i] is not None:
+                seen_valid.add(k)
+        elif k in seen_valid:
+            pending.add(k)
+    return False
